@@ -145,6 +145,23 @@ def register(m):
       "    def doit(self, **_hints: Any) -> IndexedSymbol:\n        # There is nothing to evaluate in an indexed symbol. SymPy would rebuild it from its label\n"
       "        # otherwise, and the rebuilt object has neither the display names nor the dimension.\n        return self\n",
       "    @property\n    def func(self) -> Any:\n        return lambda *_args: self\n", "SILENT")
+    m("C09", "b4-dimension-keyword-leaks-into-assumptions-regression", SYMB,
+      "        display_symbol: Optional[str] = None,\n        dimension: Dimension = Dimension(S.One),  # pylint: disable=unused-argument\n        *,\n        display_latex: Optional[str] = None,\n        **assumptions: Any) -> Symbol:",
+      "        display_symbol: Optional[str] = None,\n        _dimension: Dimension = Dimension(S.One),\n        *,\n        display_latex: Optional[str] = None,\n        **assumptions: Any) -> Symbol:", "N6",
+      note="the genuine defect repaired in efc1fd6")
+    m("C09", "b4-clone-as-indexed-without-subscript-regression", SYMB,
+      "    display_latex: Optional[str] = None,\n    subscript: Optional[str] = None,\n    **assumptions: Any,\n) -> IndexedSymbol:",
+      "    display_latex: Optional[str] = None,\n    **assumptions: Any,\n) -> IndexedSymbol:", "N3",
+      extra=[(SYMB, "    display_symbol, display_latex = _process_subscript_and_names(display_symbol, display_latex,\n        subscript)\n\n    return IndexedSymbol(", "    return IndexedSymbol(", 1)],
+      note="the genuine defect repaired in f20626e")
+    SYMBOLIC = "symplyphysics/core/operations/symbolic.py"
+    m("C18", "b4-wrap-flags-outside-identity-regression", SYMBOLIC,
+      "        return (*super()._hashable_content(), self.factor, getattr(self, \"wrap_code\", False),\n            getattr(self, \"wrap_latex\", False))",
+      "        return (*super()._hashable_content(), self.factor)", "L11", note="the genuine defect repaired in 471510b")
+    PLATEX = "symplyphysics/docs/printer_latex.py"
+    m("C18", "b4-indexed-sum-body-unbracketed-regression", PLATEX, "{self.parenthesize(arg, PRECEDENCE['Mul'])}\"\n\n    # pylint: disable-next=invalid-name\n    def _print_IndexedProduct",
+      "{self._print(arg)}\"\n\n    # pylint: disable-next=invalid-name\n    def _print_IndexedProduct", "L10", note="the genuine defect repaired in b7cd562")
+    m("C18", "b4-indexed-product-atom-precedence-regression", "symplyphysics/core/operations/product_indexed.py", "    precedence = PRECEDENCE[\"Mul\"]\n", "", "L10")
     # C09 N1: factories hand out fresh systems
     m("C09", "b2-transform-returns-argument", CSYS,
       ") -> CoordinateSystem:\n    new_coord_system = from_system.coord_system.create_new(",
